@@ -3,7 +3,7 @@ CONSTANTS
  Copies = 1  Pad = 0  Concat = FALSE
  OutOvh = 0
  EarlyTailError = FALSE
- MaxReinit = 0 MemStop = 3 MaxRaise = 1 Tell = "none"
+ MaxReinit = 0 MemStop = 3 MaxRaise = 1 MayFailMain = FALSE Tell = "none"
  CountCalls = TRUE
  NW = 2  HdrSz = 1  TailSz = 1  TailOk = TRUE  Chunk = 1
  Blocks <- B_memstop
